@@ -225,6 +225,24 @@ def step (s : St) (ts : List String) : St × List String :=
       match serialize s.o m with
       | none => (s, [s!"too-long L={lens} E={emits}"])
       | some (b, m') => (s, [s!"{hex b} L={lens} E={emits} after={rMsg m'}"])
+  | "enc2" :: k :: a :: b :: c :: d :: rest =>
+    -- object history: Serialize under the current options, keep the object as Serialize left it (or
+    -- untouched when refused), trim the NLRI list to its first k entries, Serialize again under ⟨a b c d⟩
+    match pMsg rest with
+    | none => (s, ["bad-op"])
+    | some m =>
+      let r1 := serialize s.o m
+      let m1 := match r1 with
+        | some (_, m') => m'
+        | none => m
+      let m2 : Msg := match m1.body with
+        | .update u => { m1 with body := .update { u with nlri := u.nlri.take (nat! k) } }
+        | _ => m1
+      let r2 := serialize ⟨b! a, b! b, b! c, b! d⟩ m2
+      let show1 (r : Option (Bytes × Msg)) : String := match r with
+        | some (bs, _) => hex bs
+        | none => "too-long"
+      (s, [s!"{show1 r1} | {show1 r2}"])
   | ["dec", h] =>
     match unhex h with
     | none => (s, ["bad-op"])
